@@ -35,6 +35,7 @@ func T3StructSyntax(p *AsmProg, alphabet string) func(x *Exec) {
 		var toks []byte
 		prev := -1
 		open := byte('{')
+		hasOpen := false
 		finished, failed, unmodelled := false, false, ""
 		silent := map[string]bool{"lspace": true, "save": true, "load": true, "drop": true, "drop_2": true, "index": true, "goto": true,
 			"slice_init": true, "slice_append": true, "map_init": true, "array_clear": true, "array_clear_p": true,
@@ -56,6 +57,7 @@ func T3StructSyntax(p *AsmProg, alphabet string) func(x *Exec) {
 				switch o.Op {
 				case "check_char_0":
 					open = byte(o.B)
+					hasOpen = true
 				case "add":
 					if o.I == 1 && prev > 0 && k == prev+1 {
 						toks = append(toks, open)
@@ -96,6 +98,11 @@ func T3StructSyntax(p *AsmProg, alphabet string) func(x *Exec) {
 					}
 				case "object_next":
 					if k == prev+1 {
+						toks = append(toks, 's')
+					}
+				case "skip_empty":
+					// a struct without decodable fields: the whole value is skipped
+					if k == o.I || k == prev+1 {
 						toks = append(toks, 's')
 					}
 				case "dismatch_err", "go_skip":
@@ -256,12 +263,11 @@ func T3StructSyntax(p *AsmProg, alphabet string) func(x *Exec) {
 			return
 		}
 		x.asmPos = p.Name + " at exit"
-		text := T3TokensToText(toks)
 		if len(toks) > 24 {
 			return
 		}
-		ok := json.Valid([]byte(text))
-		if !ok {
+		// the token sequence travels with every counterexample (replays spell it as JSON text)
+		{
 			var c *smt.Term = s.True
 			for i := 0; i < 24; i++ {
 				ti := x.newInput(fmt.Sprintf("tok[%d]", i), 8)
@@ -272,6 +278,16 @@ func T3StructSyntax(p *AsmProg, alphabet string) func(x *Exec) {
 				c = s.BAnd(c, s.Eq(ti, s.Const(8, uint64(v))))
 			}
 			x.assume(c)
+		}
+		text := T3TokensToText(toks)
+		if hasOpen {
+			// a container type accepts only its own opening bracket or null: any other first
+			// character is a type mismatch and must have been reported (C01)
+			first := x.byteIdx(Ptr{Obj: e.input, Off: x.c64(0)}, 0)
+			x.check(s.BOr(s.Eq(first, s.Const(8, uint64(open))), s.Eq(first, s.Const(8, 'n'))), "assert",
+				fmt.Sprintf("generated decoder accepts a value that does not start with %q (nor null) for a container type without reporting a type mismatch", string(open)))
+		}
+		if !json.Valid([]byte(text)) {
 			x.check(s.False, "assert", fmt.Sprintf("generated decoder accepts a structurally malformed document: %s", text))
 		}
 		x.covers["accepted"] = true
